@@ -331,15 +331,19 @@ def segment(text, nfolds=5, njobs=1,
 
     # each job waits for an external process: run them in threads (as
     # ag does), so that a failing fold does not kill the workers of the
-    # other ones before they have removed their temporary file
+    # other ones before they have removed their temporary file. The
+    # error of a failing fold is raised once all the folds are done
+    errors = []
     segmented_texts = joblib.Parallel(
         n_jobs=njobs, backend="threading", verbose=0)(
-        joblib.delayed(_dpseg)(
+        joblib.delayed(utils.catch_errors(_dpseg, errors))(
             fold, args,
             log_level=log.getEffectiveLevel(),
             log_name='wordseg-dpseg - fold {}'.format(n+1),
             binary=binary)
         for n, fold in enumerate(folded_texts))
+    if errors:
+        raise errors[0]
 
     log.debug('unfolding the %s folds', nfolds)
     output_text = folding.unfold(segmented_texts, fold_index)
